@@ -363,6 +363,11 @@ impl Prop for C18 {
         out.set_exhaustive("kitchen", true);
       }
       "object" => {
+        // route equivalence of the objects this property reads (see routes.rs)
+        prop_run(env, out, "routes", env.tier.pick(1600, 64000) / nshards as u32, 8800 + shard as u64, crate::routes::date_strategy(), &ev);
+        out.set_exhaustive("routes", false);
+        prop_run(env, out, "hroutes", env.tier.pick(1600, 64000) / nshards as u32, 8900 + shard as u64, crate::routes::hour_strategy(), &ev);
+        out.set_exhaustive("hroutes", false);
         // strided walks on fresh threads (see engine::stride_walks)
         stride_walks(env, out, "object", env.tier.pick(800, 24000) / nshards as u32, 7000 + shard as u64, 0, (crate::model::NDAYS as i64) - 366, 800, &|x| vec![x, (x * 5).rem_euclid(24)], &ev);
         if shard == 0 {
@@ -399,6 +404,8 @@ impl Prop for C18 {
       "god" => self.eval_god(env, out, case),
       "kitchen" => self.eval_kitchen(env, out, case),
       "object" => self.eval_object(env, out, case),
+      "routes" => crate::routes::compare_day_routes(env, out, "routes", case, (case.a[0].clamp(0, crate::model::NDAYS as i64 - 1)) as usize, &crate::routes::fields_c18),
+      "hroutes" => crate::routes::compare_hour_routes(env, out, "hroutes", case, (case.a[0].clamp(0, crate::model::NDAYS as i64 - 1)) as usize, case.a.get(1).cloned().unwrap_or(10), &crate::routes::hour_fields_c18),
       _ => panic!("unknown sub-check {}", sub),
     }
   }
